@@ -8,7 +8,8 @@ def run(tier):
     run, fx = start("C23", tier,
         "T1 pairing including unwind exits: the StackInfo pushed before corosensei::on_stack is popped by an RAII guard on return and on the unwind "
         "edge, on both growth paths; T2 in-place fast path only under remaining >= red_zone measured against the last segment; T5 value pass-through; "
-        "hook crate: zero arguments are replaced by the defaults and the parameter is passed through.",
+        "hook crate: zero arguments are replaced by the defaults and the parameter is passed through, the user function is called only inside the callback "
+        "handed to maybe_grow_with; T5 the segment size derives from max(stack_size, red_zone).",
         cfgs,
         not_decided=["that the red zone is physically available (needs the real stack pointer)", "frame sizes"],
         assumptions=["corosensei::on_stack re-raises a panic of the callback on the original stack", "Drop of a local runs on unwind"])
